@@ -16,6 +16,9 @@ CHECKS={
  "C07":dict(cat="exploration",technique="runtime monitoring: differential lexeme-stream oracle (own RFC 8259 lexer + encoding/json + math/big) over exhaustive bounded number lexemes and seeded generated texts",
    text="The real JSON minifier is run on every RFC 8259 number lexeme up to a length bound in three contexts (exhaustive), on seeded generated texts and on repository JSON files, with both KeepNumbers values; output must be valid for encoding/json, never longer, and token-for-token equal (strings byte-identical, numbers exactly equal as rationals).",
    note="Trusts encoding/json.Valid, math/big and my lexer; unbounded input space is sampled.",ref="DESIGN.md §5 C07"),
+ "C09":dict(cat="exploration",technique="runtime monitoring: independent parsers (acorn+V8, encoding/json, own XML tokenizer + encoding/xml, own HTML tag scanner, own CSS lexical scanner) applied to input and output of every accepted call, plus a second minifier pass",
+   text="For each of the six languages the real minifier is run on frozen test-table inputs, repository corpora and benchmark documents (whole), generated inputs and seeded mutations/splices, under default and non-default options; whenever the independent parser accepts the input it must accept the output, and the minifier must accept its own output again.",
+   note="Sampled; validity of HTML is tag-level (WHATWG tokenizer parse errors) plus inline-script validity; CSS validity is lexical and CSS inputs are not mutated; known defects are identified by witness, by failure signature (call site) or kept out of the domain by input guards.",ref="DESIGN.md §5 C09"),
  "C14":dict(cat="fault_enumeration",technique="runtime monitoring: fault-injecting reader/writer doubles at every position with sentinel-error oracle, call-budget progress monitor, goroutine-dump blocked-forever detector, race-detector child",
    text="For every input of a pool (hand-written incl. truncations of each, generated, repository corpus) of all six media types, the reader is made to fail after every byte count (three fault shapes, three error kinds incl. errors wrapping io.EOF) and the writer from every write index on, through Minify, Reader, Writer and ResponseWriter; the call must return the injected error and must return at all.",
    note="Complete over fault positions of each observed input (sampled above 512); inputs themselves are a finite pool. Blocking is decided from unchanging goroutine dumps, never from elapsed time alone.",ref="DESIGN.md §5 C14"),
